@@ -133,7 +133,8 @@ theorem c13_queue_bound_needs_two_witness :
 /-! ### every item has exactly one fate -/
 
 /-- After any history, under any configuration and any digester behaviour: the queue and the four ghost lists
-    (digested, errored, emergency-dropped, expired) together are a rearrangement of the list of all ingested items,
+    (digested, errored — the digester raised, or handed back a value `recycled.update` could not merge —,
+    emergency-dropped, expired) together are a rearrangement of the list of all ingested items,
     without repetition — every ingested item is in exactly one of the five places, exactly once — and the observable
     numbers are the sizes of those places: `_total_ingested` items were ingested (distinct, numbered 0,1,2,…),
     `_total_digested` counts the digested ones, the errors returned in `DigestResult`s plus the errors logged by
@@ -531,6 +532,64 @@ theorem c13_translation_agrees_toxic_digester (cfg : Cfg) (htd : cfg.toxDig = no
   cases onToxic with
   | none => simp [Tr.toxic_digester, lysTr, pyCallDigester, digestOne, hty, pyCallback]
   | some f => cases hf : f it <;> simp [Tr.toxic_digester, lysTr, pyCallDigester, digestOne, hty, pyCallback, hf]
+
+
+/-- **"digested (counted)" and "reported as a digestion error" never overlap, call by call** — about the `digest`
+    method as translated from the source on this run, on the concrete part of ANY model state, for every `max_items`
+    and any digesters (raising, returning dicts / falsy values, or returning truthy values that `recycled.update`
+    cannot merge): `_total_digested` grows by exactly `DigestResult.disposed`; every item the call took out of the
+    queue is either disposed or reported in `DigestResult.errors`, never both and never neither; and the disposed ones
+    are exactly those whose digester returned a mergeable result. -/
+theorem c13_translated_digest_counts_what_it_reports (cfg : Cfg) (s : State) (k : Option Int) :
+    let r := Tr.digest cfg (conc s) k
+    let batch := s.queue.take (sliceCount s.queue.length k)
+    r.1.digested = s.digested + r.2.disposed ∧
+    r.2.disposed + r.2.errors.length = batch.length ∧
+    r.1.queue = s.queue.drop (sliceCount s.queue.length k) ∧
+    r.2.disposed = (batch.filter (succeeds cfg)).length ∧
+    r.2.success = decide (∀ it ∈ batch, succeeds cfg it = true) := by
+  intro r batch
+  have hr : r = (conc (digest cfg s k).1, (digest cfg s k).2.toDigest) := c13_translation_agrees_digest cfg s k
+  have hl := length_filter_split (succeeds cfg) batch
+  rw [hr]
+  refine ⟨rfl, ?_, rfl, rfl, ?_⟩
+  · simp only [digest, digestCore, Obs.toDigest, PyDigestResult.ofModel, List.length_replicate]
+    exact hl
+  · simp only [digest, digestCore, Obs.toDigest, PyDigestResult.ofModel]
+    simp [List.filter_eq_nil_iff]
+    rfl
+
+
+/-- a configuration whose custom digesters hand back foreign data: content 0 raises, 4 returns a truthy value that
+    cannot be merged at all, 5 one whose merge fails after one key went in, anything else a dict with one key -/
+def foreignCfg (maxQ thr : Nat) : Cfg :=
+  ⟨maxQ, thr, 10, true, fun it => if it.content = 0 then .raise else if it.content = 4 then .bad []
+    else if it.content = 5 then .bad [100 + it.id] else .ret [100 + it.id], none, none⟩
+
+example :
+    let s := run (foreignCfg 8 100) init [.ingest 1 .expired 2 .now, .ingest 2 .misfolded 5 .now, .ingest 3 .expired 4 .now,
+      .ingest 4 .orphaned 0 .now]
+    let r := Tr.digest (foreignCfg 8 100) (conc s) none
+    s.queue.length = 4 ∧ r.2.disposed = 1 ∧ r.2.errors.length = 3 ∧ r.1.digested = 1 ∧ r.2.success = false := by
+  decide
+
+/-- (observation on the code, not a violation: the item has exactly one fate) An item whose digester hands back a value
+    that `recycled.update` merges only part of is reported as a digestion error and not counted — but the keys that
+    went in before the merge failed stay in the call's `recycled` dict and reach the recycling bin with it: here item 2
+    (content 5) is errored, `disposed = 1` counts only item 1, and the bin holds a key extracted from item 2. -/
+theorem c13_unmergeable_result_partial_keys_reach_bin_witness :
+    let s := run (foreignCfg 8 100) init [.ingest 1 .expired 2 .now, .ingest 2 .misfolded 5 .now, .digest none]
+    s.gDigested.map (·.id) = [1] ∧ s.gErrored.map (·.id) = [2] ∧ s.digested = 1 ∧ s.reported = 1 ∧
+    s.bin.map (fun kv => (kv.1, kv.2.id)) = [(101, 1), (102, 2)] := by decide
+
+/-- (observation on the code) The emergency digest discards what the digesters return without merging it, so there an
+    item whose digester handed back an unmergeable value IS counted as digested (nothing could fail): capacity 2, two
+    such items queued, the third ingest emergency-digests the older one — digested 1, nothing logged, nothing
+    reported.  Either way the item has exactly one fate (`c13_fate_partition`). -/
+theorem c13_emergency_counts_unmergeable_result_witness :
+    let s := run (foreignCfg 2 100) init [.ingest 1 .expired 4 .now, .ingest 2 .expired 4 .now, .ingest 3 .expired 2 .now]
+    s.gDigested.map (·.id) = [1] ∧ s.gEmDropped = [] ∧ s.gErrored = [] ∧ s.emLogged = 0 ∧
+    s.queue.map (·.id) = [2, 3] := by decide
 
 /-- one protocol operation executed by the TRANSLATED methods -/
 def trStep (cfg : Cfg) (r : PyRun) : Op → PyRun
